@@ -47,5 +47,5 @@ where
 {
     let mut writer = File::create(dst).map(Writer::new)?;
     writer.write_index(index)?;
-    Ok(())
+    writer.try_finish()
 }
